@@ -652,7 +652,7 @@ def c15(work, v, tier):
     tables = [("xfer", dict(Caps=[0], Vals=["nil", "a"], MaxLen=3 if q else 4, Fams=["grow", "transfer"], PushLens=[1, 2],
                             DstCaps=[0, 1, 2, 3] if q else [0, 1, 2, 3, 4, 5], DstOps=["push", "pop", "ronly"], depth=2,
                             walks=300 if q else 20000, wlen=40)),
-              ("xfer-nn", dict(Caps=[0], Vals=["a", "S"], MaxLen=2, Fams=["grow", "transfer"], PushLens=[1],
+              ("xfer-nn", dict(Caps=[0], Vals=["a", "S"], MaxLen=3, Fams=["grow", "transfer"], PushLens=[1],
                                DstCaps=[0, 2], DstOps=["push", "nnest"], depth=2, walks=100, wlen=30))]
     traces = [("rand", dict(traces=200 if q else 2000, len=60, fams=["list", "transfer"], caps="0,1,2,3,5,8", nest=True, nvals=6))]
     return sm_check(work, v, "C15", tier, tables, traces, C15_FIELDS,
@@ -836,7 +836,7 @@ def c12(work, v, tier):
     q = tier == "quick"
     tables = [("nest-alias", dict(Caps=[0], Kinds=["AND", "LIST"], Vals=["a", "S", "A", "P"], MaxLen=2, InitOpts=[[], ["nnest"]], Fams=["grow", "opts"],
                                   OptFlags=["nnest"], PushLens=[1, 2], depth=2, walks=200 if q else 10000, wlen=30, fields=C13_FIELDS)),
-              ("xfer-forms", dict(Caps=[0], Vals=["nil", "a"], MaxLen=2, Fams=["grow", "transfer"], PushLens=[1], DstCaps=[0, 2], DstOps=["push"],
+              ("xfer-forms", dict(Caps=[0], Vals=["a", "S", "A", "P"], MaxLen=3, Fams=["grow", "transfer"], PushLens=[1], DstCaps=[0, 2], DstOps=["push", "nnest"],
                                   depth=2, walks=200 if q else 10000, wlen=30, fields=C15_FIELDS)),
               ("cond-alias", dict(machine="cond", KwArgs=["k"], OpArgs=["Eq"], ExArgs=["nil", "s:v", "S", "A", "P", "C"], CFams=["set", "opts"],
                                   COptFlags=["nnest"], depth=3, walks=200 if q else 10000))]
